@@ -267,12 +267,14 @@ def replace_pair(repo: Repo, rep, prop):
             if lab == "update" and how == "var":
                 from ..cfg import dominating_edges
 
-                for c, l in dominating_edges(s.cfg, dnode):
+                from .emit import cfg_of_node, to_caller
+
+                for c, l in dominating_edges(cfg_of_node(s, dnode), dnode):
                     e = c.ast
                     if c.kind == "cond" and isinstance(e, ast.Compare) and len(e.ops) == 1 and isinstance(e.ops[0], (ast.NotEq, ast.Eq)):
                         for a, b in ((e.left, e.comparators[0]), (e.comparators[0], e.left)):
                             if isinstance(a, ast.Call) and isinstance(a.func, ast.Attribute) and a.func.attr == "_token_of_node" and a.args:
-                                tok.append((c, a.args[0], b))
+                                tok.append((c, a.args[0], to_caller(dnode, b)))
         if not tok:
             continue
         n += 1
